@@ -48,7 +48,15 @@ free_history = st.fixed_dictionaries({'docs': st.lists(doc_spec, min_size=1, max
                                  'ops': st.tuples(_new, st.lists(op, min_size=2, max_size=12),
                                                  st.lists(_process, max_size=3)).map(
                                      lambda t: [t[0]] + t[1] + t[2])})
-history = st.one_of(free_history, free_history, reuse_after_failure)
+# forced shape: two documents that hold the very same elements under different outer namespaces
+# (Alpha.<doc> / Beta.<doc>), parsed by different instances in one process, in interleaved order
+sibling_docs = st.tuples(gen_doc.doc_model(max_depth=3), st.lists(op, max_size=4),
+                         st.sampled_from([(['Alpha'], ['Beta']), (['A', 'Hal'], ['B', 'Hal']),
+                                          (['Left'], ['Right', 'Left'])])).map(lambda t: {
+    'docs': [{'model': gen_doc.wrapped(t[0], t[2][0])}, {'model': gen_doc.wrapped(t[0], t[2][1])}],
+    'ops': [{'op': 'new', 'doc': 0}, {'op': 'process', 'p': 0}, {'op': 'new', 'doc': 1},
+            {'op': 'process', 'p': 1}, {'op': 'process', 'p': 0}] + t[1]})
+history = st.one_of(free_history, free_history, reuse_after_failure, sibling_docs)
 
 
 def doc_bytes(spec):
